@@ -377,6 +377,7 @@ def specs(tier: str, seed: int, tlc_cases: list | None = None):
                             dim = 4
                         if fac == "block_neural_autoregressive_flow" and dim > 5:
                             dim = 5          # the bisection inverter: cost grows with the dimension
-                        out.append({"src": "flow", "factory": fac, "invert": invert, "cond": cond, "transformer": tr,
+                        c_eff = 1 if (cond == 2 and ncombo % 3 == 0) else cond          # a single conditioning variable now and then
+                        out.append({"src": "flow", "factory": fac, "invert": invert, "cond": c_eff, "transformer": tr,
                                     "dim": dim, "seed": rng.randrange(2**30)})
     return out
